@@ -333,6 +333,10 @@ def configs(tier):
             worlds.append(C14Dst(scenario="dst_filestore_rejection_nodir", mode=mode, nak="imm", closure=True, size=size, seg=2, shape="nodir", ack_limit=2, nak_limit=2,
                                  faults_d={"FILESTORE_REJECTION": code},
                                  alphabet=[("md",), ("fd", 0, 2, 0), ("fd", 2, 1, 0), ("eof", size, "NO_ERROR", 1), ("tick",), ("ackfin",)], max_calls=7))
+        # ... or because the resolved path is a directory (destination directory holding a directory with the source's base name)
+        worlds.append(C14Dst(scenario="dst_filestore_rejection_dir_dir", mode="unack", closure=True, size=size, seg=2, shape="dir_dir", check_limit=1,
+                             faults_d={"FILESTORE_REJECTION": code},
+                             alphabet=[("md",), ("fd", 0, 2, 0), ("fd", 2, 1, 0), ("eof", size, "NO_ERROR", 1), ("tick",), ("expire",)], max_calls=7))
         worlds.append(C14Dst(scenario="dst_checksum_ack", mode="ack", nak="imm", size=size, seg=2, ack_limit=2, nak_limit=2,
                              faults_d={"FILE_CHECKSUM_FAILURE": code},
                              alphabet=[("md",), ("fd", 0, 2, 0), ("fd", 2, 1, 0), ("eof", size, "NO_ERROR", 0), ("tick",), ("ackfin",), ("expire",)], max_calls=9))
